@@ -244,7 +244,63 @@ def arrayexpr_case(c):
 
 ARRAY_EXPRS = ["M + N", "M - N", "N - M", "M + M", "-M", "M + N - M", "M * N", "N * M - N"]     # (array with scalar is not claimed by any property; the implementation refuses it)
 
-FAMILIES = {"arrayexpr": arrayexpr_case, "exprarray": exprarray_case, "scalar": scalar_case, "array": array_case, "ragged": ragged_case, "index": index_case, "whole": whole_array_param_case}
+ROLES = ["scalar", "scalar2", "array", "loop", "looplist", "param", "keyword"]
+
+
+def role_items(role, v, k):
+    """items that use the name `v` in one role (k makes the values of repeated roles differ)"""
+    from bbv.model.lang import N, V, B, P, U
+    if role == "scalar":
+        return [("decl", "float", v, N("%d.5" % (k + 1)))]
+    if role == "scalar2":
+        return [("decl", "int", v, N(str(7 + k)))]
+    if role == "array":
+        return [("arr", "float", v, None, [[N("%d.25" % (k + 1)), N("2.5")], [U("-", N("3.0")), N("4.0")]])]
+    if role == "loop":
+        return [("for", "int", v, ("range", 0, 2, None), [("stmt", "L%d" % k, [V(v)], [], [V(v)], "none")])]
+    if role == "looplist":
+        return [("for", "float", v, ("vals", [N("0.5"), N("1.5")], "sq"), [("stmt", "M%d" % k, [], [("k", V(v))], [N("1")], "none")])]
+    if role == "param":
+        return [("stmt", "P%d" % k, [B("*", N("2"), P(v))], [], [N("0")], "none")]
+    if role == "keyword":
+        return [("stmt", "K%d" % k, [N("1")], [(v, N("0.25"))], [N("0")], "none")]
+    raise ValueError(role)
+
+
+def nameroles_case(c):
+    """one identifier in several roles, one after the other (declared scalar / array, loop variable, template
+    parameter, keyword name), then used: the variables and operations are what the reference model says"""
+    from bbv.model import denote, lang
+    from bbv.model.lang import N, V
+    roles, v = c
+    items = [("decl", "int", "n0", N("4"))]
+    for k, r in enumerate(roles):
+        items += role_items(r, v, k)
+        items.append(("stmt", "U%d" % k, [V("n0")], [], [N("0")], "none"))
+    sc0 = dict(name="r", version="1.0", items=list(items))
+    # a final use of the name, if it still denotes something
+    use = ("stmt", "Use", [V(v)], [("k", V(v))], [N("0")], "none")
+    for sc in (dict(sc0, items=items + [use]), sc0):
+        try:
+            m = denote.Model().run(sc)
+            break
+        except denote.Refused:
+            m = None
+        except denote.OutOfDomain:
+            return None
+    if m is None:
+        return None
+    text = lang.render(sc)
+    p, e = _load(text)
+    if e is not None:
+        return ("C05/name-roles:rejected:" + type(e).__name__, "%s ;; roles %r of %r ;; %s" % (common.exc_sig(e), roles, v, text.replace("\n", " / ")[-200:]))
+    errs = denote.compare(m, p, check_vars=True)
+    if errs:
+        return ("C05/name-roles:" + "|".join(sorted(set(x.split("-")[0] if x.startswith("var") else "operations" for x in errs))), "%s ;; roles %r of %r ;; %s" % ("; ".join(errs)[:200], roles, v, text.replace("\n", " / ")[-300:]))
+    return None
+
+
+FAMILIES = {"nameroles": nameroles_case, "arrayexpr": arrayexpr_case, "exprarray": exprarray_case, "scalar": scalar_case, "array": array_case, "ragged": ragged_case, "index": index_case, "whole": whole_array_param_case}
 
 
 @common.guarded("C05")
@@ -289,6 +345,11 @@ def build(ctx):
     for t in EXPR_ROWS:
         for tr in (False, True):
             cases.append(("exprarray", (t, tr)))
+    for n_ in (2, 3):
+        for roles in itertools.product(ROLES, repeat=n_):
+            if len(set(roles)) == 1 and roles[0] in ("param", "keyword"):
+                continue
+            cases.append(("nameroles", (roles, "v" if n_ == 2 else "r")))
     for t in VALS:
         for ex_ in ARRAY_EXPRS:
             if t == "int" and "/" in ex_:
